@@ -11,6 +11,7 @@ import (
 	"fmt"
 	"os"
 
+	"github.com/bufbuild/verifharness/internal/codegenmodel"
 	"github.com/bufbuild/verifharness/internal/reg"
 
 	_ "github.com/bufbuild/verifharness/internal/authmodel"
@@ -18,7 +19,6 @@ import (
 	_ "github.com/bufbuild/verifharness/internal/cachemodel"
 	_ "github.com/bufbuild/verifharness/internal/climodel"
 	_ "github.com/bufbuild/verifharness/internal/configmodel"
-	_ "github.com/bufbuild/verifharness/internal/codegenmodel"
 	_ "github.com/bufbuild/verifharness/internal/commitmodel"
 	_ "github.com/bufbuild/verifharness/internal/depsmodel"
 	_ "github.com/bufbuild/verifharness/internal/digestmodel"
@@ -36,6 +36,11 @@ import (
 )
 
 func main() {
+	if len(os.Args) >= 2 && os.Args[1] == "codegen-plugin" {
+		// invoked by `buf generate` as a local plugin (C17, end-to-end stage)
+		codegenmodel.PluginMain()
+		return
+	}
 	if len(os.Args) < 4 {
 		fmt.Fprintln(os.Stderr, "usage: vh <sub-command> <input.json> <output.json>; sub-commands:", reg.Names())
 		os.Exit(2)
